@@ -21,7 +21,7 @@ def RT(name, grp, key, fp, ln, tiers=QT):
     # into `done` by the compiler's shared clean-up block, so the exit test after MESSAGE-INTEGRITY is decided by the solver
     # (unwinding assertion), not by constant folding
     n = NATTR[grp] + (1 if (grp in ('ints', 'addr6x') and ln) else 0) + (1 if key else 0) + (1 if fp else 0)
-    return S(name, 'h_rt', (G[grp], key, fp, ln), cap=128, dec=max(n, 1), tiers=tiers, bound=RT_BOUND % (grp, key, fp, ln))
+    return S(name, 'h_rt', (G[grp], key, fp, ln), cap=128, dec=n + 1, tiers=tiers, bound=RT_BOUND % (grp, key, fp, ln))
 
 def rt_instances():
     out = [RT('rt_ints', 'ints', 2, 1, 1), RT('rt_ints_plain', 'ints', 0, 0, 0), RT('rt_empty', 'empty', 3, 1, 0), RT('rt_empty_fp', 'empty', 0, 1, 0),
@@ -42,7 +42,7 @@ def rt_instances():
     return out
 
 V = dict(mi=1, mi_fp=2, prio_mi=3, user_mi=4, xaddr_mi=5, unk_mi=6, mi_prio=7, fp=8, mi_mi=9)
-VDEC = dict(mi=1, mi_fp=2, prio_mi=2, user_mi=2, xaddr_mi=2, unk_mi=2, mi_prio=2, fp=1, mi_mi=2)   # = maximal number of attributes walked
+VDEC = dict(mi=2, mi_fp=3, prio_mi=3, user_mi=3, xaddr_mi=3, unk_mi=3, mi_prio=3, fp=2, mi_mi=3)   # = maximal number of attributes walked
 MI_BOUND = 'buffer with fixed attribute layout [%s]: header, payload bytes and the length field of the last attribute symbolic; key of 1..%d symbolic bytes (0: empty key)'
 def MI(var, kmax, tiers=QT, name=None, **kw):
     return S(name or ('acc_%s_k%d' % (var, kmax)), 'h_dec_mi', (V[var], kmax, 0, 0), cap=72, dec=VDEC[var], tiers=tiers, bound=MI_BOUND % (var, kmax), cdefs={'VP_UTF8_LATIN1': 1}, **kw)
@@ -57,9 +57,12 @@ stun_instances = rt_instances() + [
     S('enc_addr_xor', 'h_enc_addr', (1, 0, 0, 0), bound='IPv4 address and port fully symbolic (port 0 = attribute absent)'),
     S('dec_addr_plain', 'h_dec_addr', (0, 0, 0, 0), dec=1, bound='32-byte datagram, fixed framing of one IPv4 address attribute, everything else symbolic'),
     S('dec_addr_xor', 'h_dec_addr', (1, 0, 0, 0), dec=1, bound='32-byte datagram, fixed framing of one IPv4 address attribute, everything else symbolic'),
+    S('enc_err', 'h_enc_err', solver='cadical', bound='error class 3..6 and number 0..99 symbolic, empty reason phrase'),
+    S('dec_err_0', 'h_dec_err', (0, 0, 0, 0), dec=1, bound='class and number bytes arbitrary, reason phrase of 0 bytes'),
+    S('dec_err_3', 'h_dec_err', (3, 0, 0, 0), dec=1, bound='class and number bytes arbitrary, reason phrase of 3 ASCII bytes (no NUL)'),
     MI('mi', 2), MI('mi', 0), MI('mi_fp', 2), MI('prio_mi', 1), MI('user_mi', 1), MI('xaddr_mi', 1), MI('unk_mi', 1), MI('mi_prio', 1), MI('mi_mi', 1),
     MI('fp', 0), MI('fp', 1), MI('mi_fp', 0, tiers=T), MI('prio_mi', 3, tiers=T), MI('mi', 8, tiers=T),
-    ANY('h_dec_any', 'safe_any20', 20, 1, QT, 1), ANY('h_dec_any', 'safe_any24', 24, 1, QT, 1), ANY('h_dec_any', 'safe_any28', 28, 1, T, 2, timeout_s=2400, mem_gb=14, object_bits=12),
+    ANY('h_dec_any', 'safe_any20', 20, 1, QT, 1), ANY('h_dec_any', 'safe_any24', 24, 1, QT, 2), ANY('h_dec_any', 'safe_any28', 28, 1, T, 3, timeout_s=2400, mem_gb=14, object_bits=12),
     S('dec_short', 'h_dec_short', cap=40, dec=1, object_bits=12, bound='datagrams of every size 0..19, arbitrary bytes'),
     S('dec_badlen', 'h_dec_badlen', (28, 0, 0, 0), cap=40, dec=1, bound='28-byte datagram: arbitrary header whose length field is not 8, followed by a well-formed PRIORITY attribute'),
     S('peek20', 'h_peek', (20, 0, 0, 0), cap=40, bound='20 arbitrary bytes, valid length field'),
@@ -68,18 +71,18 @@ stun_instances = rt_instances() + [
 
 def U(name, entry, cfg=(0, 0, 0, 0), cap=100, unwind=72, tiers=QT, bound='', **kw):
     d = dict(name=name, entry=entry, unwind=unwind, timeout_s=300, mem_gb=6, model_loop_bound=cap + 4, tiers=tiers, bound=bound,
-             cdefs={'QB_CAP': cap, 'HB_CAP': 96, 'VP_CFG0': cfg[0], 'VP_CFG1': cfg[1], 'VP_CFG2': cfg[2], 'VP_CFG3': cfg[3]})
+             cdefs={'QB_CAP': cap, 'HB_CAP': max(96, cap), 'VP_CFG0': cfg[0], 'VP_CFG1': cfg[1], 'VP_CFG2': cfg[2], 'VP_CFG3': cfg[3]})
     d.update(kw); return d
 HM_BOUND = 'key of %d..%d symbolic bytes, text of 0..%d symbolic bytes, %s; hash = uninterpreted consistent function'
+def HM(k, md5, tiers):
+    return U('hmac_%s_k%d' % ('md5' if md5 else 'sha1', k), 'h_hmac', (k, k, md5, 4), cap=max(100, k + 4), unwind=max(72, k + 4), tiers=tiers, timeout_s=300 if k < 200 else 1200,
+             bound=HM_BOUND % (k, k, 4, 'MD5' if md5 else 'SHA-1'))
 util_instances = [
-    U('dbg_hm_65', 'h_hmac', (65, 65, 0, 0), tiers=Q), U('dbg_hm_3', 'h_hmac', (3, 3, 0, 2), tiers=Q), U('dbg_hm_0_2', 'h_hmac', (0, 2, 0, 0), tiers=Q),
+
     U('crc_table', 'h_crc_table', unwind=10, bound='all 256 table entries (symbolic index)'),
     U('crc_bytes4', 'h_crc_bytes', (4, 0, 0, 0), cap=40, unwind=10, tiers=Q, solver='cadical', bound='all byte strings of length 0..4'),
     U('crc_bytes6', 'h_crc_bytes', (6, 0, 0, 0), cap=40, unwind=10, tiers=T, solver='cadical', timeout_s=900, bound='all byte strings of length 0..6'),
-    U('hmac_sha1_short', 'h_hmac', (0, 64, 0, 4), bound=HM_BOUND % (0, 64, 4, 'SHA-1')),
-    U('hmac_sha1_long', 'h_hmac', (65, 70, 0, 2), bound=HM_BOUND % (65, 70, 2, 'SHA-1')),
-    U('hmac_md5_short', 'h_hmac', (0, 64, 1, 2), bound=HM_BOUND % (0, 64, 2, 'MD5')),
-    U('hmac_md5_long', 'h_hmac', (65, 66, 1, 1), tiers=T, bound=HM_BOUND % (65, 66, 1, 'MD5')),
+] + [HM(k, 0, QT) for k in (0, 1, 63, 64, 65, 70)] + [HM(k, 1, QT) for k in (16, 64, 65)] + [HM(k, 0, T) for k in (2, 20, 32, 62, 66, 67, 100, 128, 300)] + [HM(k, 1, T) for k in (0, 63, 66, 128)
 ]
 
 SPEC = dict(
@@ -87,6 +90,34 @@ SPEC = dict(
     groups=[
         dict(name='stun', harness='h_stun.cpp', tus=[], models=STUN_MODELS, cand=STUN_CAND, instances=stun_instances),
         dict(name='utils', harness='h_utils.cpp', tus=[], models=UTIL_MODELS, instances=util_instances),
+        # demonstration of the known finding (only selected while `hmac_long_key` is listed in known_findings.txt)
+        dict(name='utils_kf', harness='h_utils.cpp', tus=[], models=UTIL_MODELS, cxxdefs={'VP_DEMONSTRATE_KF': 1},
+             instances=[dict(HM(65, 0, QT), name='kf_hmac_sha1_k65', known_finding='hmac_long_key')]),
     ],
-    bounds=[], assumptions=[], outside=[],
+    bounds=[
+        'round trips: one attribute group per instance (integers; IPv4 plain/XOR; IPv6 plain/XOR; strings; byte strings + ICE role; ERROR-CODE; no attribute), '
+        'key length 0..3, fingerprint on/off, strings and byte strings of every length 0..5 (quick) and 8 (thorough); all values symbolic',
+        'ports and error codes are per-instance constants in the round trips (0 = attribute absent); symbolic ports / codes in enc_addr_*, dec_addr_*, enc_err, dec_err_*',
+        'acceptance: datagrams of 44..72 bytes with a fixed attribute layout ([MI], [MI,FP], [X,MI] for X in PRIORITY/USERNAME/XOR-MAPPED/unknown, [MI,PRIORITY], [MI,MI], [FP]); '
+        'header, payload and the length field of the last attribute symbolic; key 1..2 (thorough: 8) symbolic bytes or empty',
+        'safety: arbitrary datagrams of 20 and 24 bytes (thorough: 28) with a valid header length field, every size 0..19, one wrong length field; peekType on 20/28 bytes',
+        'CRC-32: all 256 table entries; all byte strings of length <= 4 (thorough: 6)',
+        'HMAC: key lengths 0, 1, 63, 64, 65, 70 (SHA-1) and 16, 64, 65 (MD5) in quick; 2, 20, 32, 62, 66, 67, 100, 128, 300 more in thorough; key and text bytes symbolic, text 0..4 bytes',
+    ],
+    assumptions=[
+        'strings are ASCII without NUL (QString::fromUtf8(QByteArray) stops at the first NUL; the UTF-8 codec is Qt\'s and is modelled as identity on ASCII)',
+        'setId() is given 12 bytes (Q_ASSERT in the setter); ICE-CONTROLLING/ICE-CONTROLLED tie-breakers are 8 bytes (RFC 5245) and not both set',
+        'an address attribute is "present" iff its port is non-zero (encode\'s own convention); ERROR-CODE is in 300..699 (RFC 5389 15.6)',
+        'HMAC-SHA1 and CRC-32 inside encode/decode are cut at QXmppUtils::generateHmacSha1/generateCrc32 and replaced by uninterpreted, functionally consistent functions; '
+        'the functions behind the cut are checked in the utils group (hash function itself = uninterpreted QCryptographicHash oracle)',
+    ],
+    outside=[
+        'TURN allocation logic, toString() dumps',
+        'strings longer than 8 bytes, non-ASCII strings, strings with embedded NUL (these do NOT round-trip: decode truncates at the NUL)',
+        'bit-level rejection ("flipping any bit makes decoding fail") is claimed only structurally: acceptance <=> the 20 bytes equal HMAC(key, adjusted prefix) for an uninterpreted HMAC; '
+        'collision resistance of SHA-1 is not something a solver establishes',
+        'symbolic length fields in front of further attributes are covered only by the arbitrary-datagram instances (<= 28 bytes)',
+        'HMAC key lengths other than the listed ones (the key length must be a constant per instance: Qt\'s QStringBuilder copy loops over a symbolic length do not terminate in symex)',
+        'observation (not asserted): a truncated MESSAGE-INTEGRITY attribute is compared zero-extended, attribute lengths are not checked against the datagram size (reads past the end yield zeros, no memory is touched)',
+    ],
 )
